@@ -160,6 +160,7 @@ def run(ctx):
         if v is False:
             res["violations"].append({"key": "C17:malformed-accepted", "what": "malformed hash / iteration / "
                                       "signature accepted", "doc": doc})
+            continue         # what follows states what holds of well-formed authorizations
         # message text and wrapping, stated independently
         hb = bytes.fromhex(doc["signer"]["hash"])
         it = doc["signer"]["iteration"]
@@ -173,7 +174,12 @@ def run(ctx):
             res["violations"].append({"key": "C17:digest", "what": "digest is not Keccak-256 of the wrapped text"})
         # file round trip
         json.dump(resave, open(path, "w"))
-        sa2 = SignerAuthorization.from_jsonfile(path)
+        try:
+            sa2 = SignerAuthorization.from_jsonfile(path)
+        except BaseException as e:
+            res["violations"].append({"key": "C17:roundtrip", "what": "an authorization that loaded cannot be loaded "
+                                      "again after saving: %s" % type(e).__name__, "doc": doc})
+            continue
         if (sa2.signer_version.hash, sa2.signer_version.iteration, sa2.signatures) != loaded[:3]:
             res["violations"].append({"key": "C17:roundtrip", "what": "save/load changed the authorization"})
         # a refused signature leaves the authorization as it was
